@@ -41,6 +41,7 @@ import (
 	"strconv"
 	"strings"
 	"sync"
+	"sync/atomic"
 	"time"
 
 	"github.com/tmpim/casket/casketfile"
@@ -121,6 +122,11 @@ type Instance struct {
 	// to access this value safely
 	Storage   map[interface{}]interface{}
 	StorageMu sync.RWMutex
+
+	// onShutdownRan is set by whoever gets to the OnShutdown
+	// callbacks first, a restart or the process shutdown that
+	// arrives while it is under way: they run once
+	onShutdownRan int32
 }
 
 // Instances returns the list of instances.
@@ -162,10 +168,12 @@ func (i *Instance) Stop() error {
 // the rest. All the non-nil errors will be returned.
 func (i *Instance) ShutdownCallbacks() []error {
 	var errs []error
-	for _, shutdownFunc := range i.OnShutdown {
-		err := shutdownFunc()
-		if err != nil {
-			errs = append(errs, err)
+	if atomic.CompareAndSwapInt32(&i.onShutdownRan, 0, 1) {
+		for _, shutdownFunc := range i.OnShutdown {
+			err := shutdownFunc()
+			if err != nil {
+				errs = append(errs, err)
+			}
 		}
 	}
 	for _, finalShutdownFunc := range i.OnFinalShutdown {
@@ -256,10 +264,12 @@ func (i *Instance) Restart(newCasketfile Input) (*Instance, error) {
 	if err != nil {
 		return i, err
 	}
-	for _, shutdownFunc := range i.OnShutdown {
-		err = shutdownFunc()
-		if err != nil {
-			return i, err
+	if atomic.CompareAndSwapInt32(&i.onShutdownRan, 0, 1) {
+		for _, shutdownFunc := range i.OnShutdown {
+			err = shutdownFunc()
+			if err != nil {
+				return i, err
+			}
 		}
 	}
 
